@@ -43,7 +43,7 @@ var txKinds = []string{"cancel-handler", "handler-err", "handler-err-cancel"}
 var mapperKinds = []string{"mapper-err", "mapper-count", "mapper-err-cancel", "mapper-count-cancel"}
 
 // preconnKinds fail the attempt before a reader exists.
-var preconnKinds = []string{"connect-refused", "handshake-garbage", "handshake-close", "handshake-err", "auth-err", "set-rejected", "set-close", "dump-write-fail"}
+var preconnKinds = []string{"connect-refused", "handshake-garbage", "handshake-close", "handshake-err", "auth-err", "set-rejected", "set-close", "dump-write-fail", "dump-write-late-error"}
 
 func isPacketKind(k string) bool { return inList(packetKinds, k) }
 func isTxKind(k string) bool     { return inList(txKinds, k) }
@@ -314,6 +314,9 @@ func runAttempt(c *core.Ctx, s *run.Session, l *hist.Layout, start hist.Pos, spe
 		case "dump-write-fail":
 			// writes: handshake response, SET query, dump request
 			xo = &xport.Options{FailWriteN: 3}
+		case "dump-write-late-error":
+			// the dump request reaches the master, the write is reported as failed
+			xo = &xport.Options{LateFailN: 3}
 		}
 	}
 	if spec.Kind != "connect-refused" { // a refused dial never reaches the master
